@@ -18,8 +18,11 @@ def fold_breaks(values):
         if value in ('left','right','recto','verso') or (value,result) in (
             ('page','auto'),('page','avoid'),('page','avoid-page'),('page','avoid-column'),
             ('column','auto'),('column','avoid'),('column','avoid-page'),('column','avoid-column'),
+            ('page','column'),
             ('avoid','auto'),('avoid-page','auto'),('avoid-column','auto')):
             result=value
+        elif value!=result and value in ('avoid','avoid-page','avoid-column') and result in ('avoid','avoid-page','avoid-column'):
+            result='avoid'
     return result
 def g(st,k,d): return st.get(k,d)
 def before_chain(f):
@@ -124,7 +127,7 @@ def block_container_layout(ctx, box, pos_y, mt, bottom_space, skip, pie, adj):
     is_start=skip is None; clone=bool(g(st,'clone',False))
     if not clone and not is_start: mt=pt=bt=0
     dbd=clone
-    if dbd: bottom_space+=pb+bb+mb
+    if dbd: bottom_space+=pb+bb+max(0,mb)
     O=adj+[mt]; cur=O; cur_is_O=True
     cwc=not (bt or pt or is_root)
     if cwc: position_y=pos_y
@@ -206,7 +209,7 @@ def in_flow_layout(ctx,box_is_root,index,child,newc,pie,cur,cur_is_O,O,bottom_sp
                 bottom_space+=cpb+cbb
                 # the implementation does not reset child.position_y before laying the child out again:
                 # the second layout starts from the position the first one left (cy), not from position_y
-                res,cur_fin,out,same=block_level_layout(ctx,child,cy,bottom_space,sub,box_is_root,pie_nc,cur)
+                res,cur_fin,out,same=block_level_layout(ctx,child,position_y,bottom_space,sub,box_is_root,pie_nc,cur)
                 if cur_is_O: O=cur_fin
                 cur=cur_fin
                 if res is not None:
